@@ -18,7 +18,7 @@ var zzStatuses = []int{200, 201, 204, 304, 404, 500, 599, 101, 100}
 
 type zzProg struct {
 	status  int
-	mode    int // 0 none, 1 SetBody, 2 AppendBody x2, 3 stream len, 4 stream -1, 5 LimitedReader, 6 chunked writer, 7 AbortWithMsg, 8 NotFound, 9 stream -2
+	mode    int // 0 none, 1 SetBody, 2 AppendBody x2, 3 stream len, 4 stream -1, 5 LimitedReader, 6 chunked writer, 7 AbortWithMsg, 8 NotFound, 9 stream -2, 10 sized stream replaced by stream -1, 11 stream -1 replaced by SetBody, 12 Content-Length header set by hand, then stream -1
 	body    []byte
 	first   bool // set status before (true) or after (false) the body call
 	close   bool
@@ -56,6 +56,16 @@ func zzApply(ctx *app.RequestContext, p *zzProg) {
 		ctx.Response.SetBodyStream(io.LimitReader(bytes.NewReader(b), int64(len(b))), -1)
 	case 9:
 		ctx.Response.SetBodyStream(bytes.NewReader(b), -2) // "identity": length unknown as well
+	case 10:
+		// the handler changes its mind: a body of known length is replaced by one of unknown length
+		ctx.Response.SetBodyStream(bytes.NewReader([]byte("0123456789")), 10)
+		ctx.Response.SetBodyStream(bytes.NewReader(b), -1)
+	case 11:
+		ctx.Response.SetBodyStream(bytes.NewReader([]byte("0123456789")), -1)
+		ctx.Response.SetBody(b)
+	case 12:
+		ctx.Response.Header.Set("Content-Length", "7")
+		ctx.Response.SetBodyStream(bytes.NewReader(b), -1)
 	case 6:
 		w := resp.NewChunkedBodyWriter(&ctx.Response, ctx.GetWriter())
 		ctx.Response.HijackWriter(w)
@@ -73,7 +83,7 @@ func zzApply(ctx *app.RequestContext, p *zzProg) {
 		ctx.NotFound()
 		ctx.Response.Header.SetNoDefaultDate(true)
 	}
-	if !p.first && (p.mode < 7 || p.mode == 9) {
+	if !p.first && (p.mode < 7 || p.mode >= 9) {
 		ctx.SetStatusCode(p.status)
 	}
 	if p.close {
@@ -85,7 +95,7 @@ func zzApply(ctx *app.RequestContext, p *zzProg) {
 func zzChooseProg(i int) *zzProg {
 	p := &zzProg{}
 	p.status = zzStatuses[zz.Choose("status", zz.Param("NSTATUS", 7))]
-	p.mode = zz.Choose("mode", 10)
+	p.mode = zz.Choose("mode", 13)
 	l := zz.Range("len", 0, zz.Param("L", 3))
 	p.body = zz.Bytes("body", l)
 	p.hv = zz.Byte("headerValueByte")
